@@ -355,6 +355,10 @@ CORPUS = [
     "f::<fn(A) -> B, C>(), y", "<M<K, fn() -> V>>::new(), y", "|f: fn(A) -> B, g| f, y",
     "x=*y, z", "x=-1, y", "x=&y, z", "x=!y, z", "x=<A as T<B, C>>::X, y", "x=|a, b| a, y", "x=::std::f(), y",
     "x =y, z", "x= y, z", "x=y", "x=(y), z",
+    # comparisons that start with a bare identifier are not `name =` aliases (first / middle / last, spaced and tight)
+    "_0 == _1", "r == &0", "eq = a == b", "a==b", "a ==b", "a== b", "x, a == b", "x, a == b, y", "a==b, y", "y, a==b",
+    "a == b, c == d", "n = 1, a == b", "a == b, n = 1", "a==b,c==d,e==f", "_0 == _1, _1", "a == b == c", "self_ == other",
+    "a != b, y", "a >= b, a <= b, a == b", "x = y == z, w", "a == -b", "a ==*b", "a == |x| x",
     # scanner state must not leak from one balanced scan to the next
     "1u32 << <u8 as Limit<u8, u8>>::SHIFT, _0", "0 < *_1 && *_1 < <u8 as Limit<u8, u8>>::MAX, _0,",
     "a < b, 1 << <u8 as L<u8, u8>>::X, _0", "a < 1 << 2 << f::<A, B>(), _0", "a << b << |p, q| p, _0",
@@ -847,7 +851,8 @@ def check_resolution(binary, chk, rng, n_bound, n_pass, report):
     pass_cases = [gen_pass_case(rng) for _ in range(n_pass)]
     # fixed regression inputs (single aliased argument behind a bare placeholder; alias referred to by position)
     for body in ['"{}", value = _0', '"{0}", value = _0', '"{value}", value = _0', '"{:?}", x = _0 + 1', '"{}", x=_0',
-                 '"{0:x}", name = a', '"{}", _0', '"{name}"', '"{}", other = a, b', '"{1}", a', '"{0}", a, b']:
+                 '"{0:x}", name = a', '"{}", _0', '"{name}"', '"{}", other = a, b', '"{1}", a', '"{0}", a, b',
+                 '"{}", _0 == _1', '"{0}", a==b', '"{:?}", r == &0', '"{eq}", eq = a == b', '"{}", a != b']:
         lit = re.match(r'"([^"]*)"', body).group(1)
         rest = body[len(lit) + 2:].lstrip(", ")
         pass_cases.append({"lit": lit, "args_src": rest, "n": None, "body": body})
@@ -864,10 +869,16 @@ def check_resolution(binary, chk, rng, n_bound, n_pass, report):
     # ---- (b) bound inference
     for k, c in enumerate(bound_cases):
         sp, ex = res[2 * k], res[2 * k + 1]
-        if not isinstance(sp, dict) or "ok" not in sp.get("syn", {}) or len(sp["syn"]["ok"]) != c["n"]:
+        if not isinstance(sp, dict) or not isinstance(sp.get("syn"), dict) or "ok" not in sp["syn"] or "tokens" not in sp \
+                or len(sp["syn"]["ok"]) != c["n"]:
             continue        # generator produced something syn reads differently: no opinion
         if not isinstance(ex, dict) or "items" not in ex:
-            report("bound-expansion-failed", "`%s` does not expand: %s" % (c["item"], json.dumps(ex)[:300]), {"item": c["item"]})
+            key = "expansion-panics" if isinstance(ex, dict) and ("panic" in ex or "crash" in ex) else "bound-expansion-failed"
+            report(key, "`%s` does not expand: %s" % (c["item"], json.dumps(ex)[:300]), {"item": c["item"]})
+            continue
+        if not isinstance(ex["items"], list) or not all(isinstance(it, dict) for it in ex["items"]):
+            report("expansion-unparsable", "the expansion of `%s` is not Rust (the arguments were re-emitted wrongly): %s ... %s" %
+                   (c["item"], json.dumps(ex["items"])[:160], str(ex.get("ok"))[-220:]), {"item": c["item"]})
             continue
         args = syn_args(sp)
         field_ty = dict(zip([f.replace("r#", "") for f in c["fields"]], c["tys"]))
@@ -887,9 +898,9 @@ def check_resolution(binary, chk, rng, n_bound, n_pass, report):
         got = set()
         for it in ex["items"]:
             if it.get("kind") == "impl":
-                for w in it.get("where", []):
-                    m = re.match(r"^(\w+) : .*:: (\w+)$", w)
-                    got.add((m.group(1), m.group(2)) if m else ("?", w))
+                for w in it.get("where") or []:
+                    m = re.match(r"^(\w+) : .*:: (\w+)$", str(w))
+                    got.add((m.group(1), m.group(2)) if m else ("?", str(w)))
         stats["bound_cases"] += 1
         stats["bound_placeholders"] += len(c["phs"])
         chk.count(("bound", c["item"]), True)
@@ -902,7 +913,13 @@ def check_resolution(binary, chk, rng, n_bound, n_pass, report):
     pend = []
     for k, c in enumerate(pass_cases):
         sp, fa = res[base + 2 * k], res[base + 2 * k + 1]
-        if not isinstance(sp, dict) or "ok" not in sp.get("syn", {}) or not isinstance(fa, dict) or "args" not in fa:
+        if not isinstance(sp, dict) or not isinstance(sp.get("syn"), dict) or "ok" not in sp["syn"] or "tokens" not in sp:
+            continue
+        if not isinstance(fa, dict) or "args" not in fa:
+            if isinstance(fa, dict) and "err" in fa and "lex_error" not in fa:
+                report("attr-rejects-valid-list", "FmtAttribute rejects `%s`: %s" % (c["body"], fa["err"]), {"attr": c["body"]})
+            elif not (isinstance(fa, dict) and "lex_error" in fa):
+                report("dm-panic", "FmtAttribute fails internally on `%s`: %s" % (c["body"], json.dumps(fa)[:200]), {"attr": c["body"]})
             continue
         args = syn_args(sp)
         m = _PH.match(c["lit"])
@@ -916,6 +933,10 @@ def check_resolution(binary, chk, rng, n_bound, n_pass, report):
             elif where == "capture" and not args:
                 want = ([{"i": v}], TRAIT_OF_TYPE[ty])
         tr = fa.get("transparent")
+        if tr is not None and not (isinstance(tr, dict) and isinstance(tr.get("expr"), str) and isinstance(tr.get("trait"), str)):
+            report("harness-unexpected-output", "unexpected `transparent` answer for `%s`: %s" % (c["body"], json.dumps(tr)[:200]),
+                   {"attr": c["body"]})
+            continue
         pend.append((c, want, tr))
         if tr is not None:
             relex_reqs.append({"cmd": "tokens", "tokens": tr["expr"]})
@@ -946,8 +967,8 @@ def check_resolution(binary, chk, rng, n_bound, n_pass, report):
         chk.count(("pass", c["body"]), True)
         got = None
         if tr is not None:
-            r = next(rl)
-            got = (drop_last_joint(r.get("ok") or []), tr["trait"])
+            r = next(rl, None)
+            got = (drop_last_joint((r.get("ok") if isinstance(r, dict) else None) or []), tr["trait"])
             stats["pass_delegated"] += 1
         w = None if want is None else (drop_last_joint(want[0]), want[1])
         if "_model_transparent" in c:
@@ -974,7 +995,10 @@ def run(tier, seed, replay):
     st = common.check_proofs(chk, "C16")
     # the explanatory port of the scanner follows the code under test (with or without the `->` rule)
     probe = common.run_jsonl(binary, [{"cmd": "c16_split", "tokens": "f::<fn() -> A, B>(), y"}])[0]
-    ARROW_SKIP[0] = len(probe.get("dm", {}).get("ok", [])) == 2
+    try:
+        ARROW_SKIP[0] = len(probe["dm"]["ok"]) == 2
+    except Exception:
+        ARROW_SKIP[0] = True
 
     if replay:
         r = json.load(open(replay))["replay"]
@@ -996,6 +1020,12 @@ def run(tier, seed, replay):
         if "lex_error" in sp:
             chk.bump("not-lexable")
             continue
+        if not all(k in sp and isinstance(sp[k], dict if k != "tokens" else list) for k in ("tokens", "dm", "syn")):
+            chk.violation("harness-unexpected-output", {"src": c["src"], "result": sp},
+                          "the harness returned no split for `%s`: %s" % (c["src"], json.dumps(sp)[:200]))
+            continue
+        if not isinstance(c.get("attr"), dict):
+            c["attr"] = {"crash": c.get("attr")}
         if has_none_group(sp["tokens"]):
             continue
         lexable.append(c)
@@ -1007,7 +1037,12 @@ def run(tier, seed, replay):
     n_syn = 0
     for c, m in zip(lexable, models):
         hits = []
-        facts = check_case(c, m, lambda k, t, d: hits.append((k, t, d)))
+        try:
+            facts = check_case(c, m, lambda k, t, d: hits.append((k, t, d)))
+        except Exception as e:      # a harness / model answer of a shape no reader expects: a finding with this input
+            facts = {"syn_ok": False, "n": 0}
+            hits.append(("reader-error", "`%s`: unexpected answer (%s: %s)" % (c["src"], type(e).__name__, e),
+                         {"split": c.get("split"), "attr": c.get("attr")}))
         toks = c["split"]["tokens"]
         nontrivial = facts["syn_ok"] and (facts["n"] >= 2 or any(t.get("p") in ("<", "|", ",") for t in toks))
         chk.count(c["src"], nontrivial)
@@ -1029,8 +1064,16 @@ def run(tier, seed, replay):
     # argument resolution (pass-through and bound inference) against format_args!'s own rules
     if not replay:
         res_hits = []
-        rstats = check_resolution(binary, chk, chk.rng, 700 if tier == "quick" else 8000, 500 if tier == "quick" else 5000,
-                                  lambda k, t, d: res_hits.append((k, t, d)))
+        try:
+            rstats = check_resolution(binary, chk, chk.rng, 700 if tier == "quick" else 8000, 500 if tier == "quick" else 5000,
+                                      lambda k, t, d: res_hits.append((k, t, d)))
+        except common.BuildError:
+            raise
+        except Exception as e:
+            import traceback
+            rstats = {"error": "%s: %s" % (type(e).__name__, e)}
+            res_hits.append(("reader-error", "the argument-resolution oracle met an answer of unexpected shape (%s: %s)" %
+                             (type(e).__name__, e), {"traceback": traceback.format_exc()[-1500:]}))
         chk.cov["argument_resolution"] = rstats
         for (k, t, d) in res_hits:
             found.setdefault(k, []).append(({"src": d.get("item") or d.get("attr") or d.get("src") or str(d)[:300]}, t, d))
